@@ -65,7 +65,7 @@ func c13Expand(tmpl, escPath, query, host, strip, prepend string) (string, bool)
 
 func TestVerifC13Inputs(t *testing.T) {
 	L := ev.Begin("C13", "c13-inputs", "exploration",
-		"13 redirect templates (every form of docs/http-redirects.md and target_test.go, with/without own query, $host, $path with and without separating slash) x request path (incl. %2F, %20, %C3%A4, strip-prefix-only) x query x host (with/without port) x strip x prepend x code (301,302,303,307,308 valid; 299,400,abc invalid), served by the real HTTPProxy.ServeHTTP; oracle: status, Location = independent expansion on the escaped path, upstream never contacted; invalid codes never redirect. non-trivial = template with $path or $host")
+		"13 redirect templates (every form of docs/http-redirects.md and target_test.go, with/without own query, $host, $path with and without separating slash) x request path (incl. %2F, %20, %C3%A4, strip-prefix-only) x query x host (with/without port) x strip x prepend x code (301,302,303,307,308 valid; 299,400,abc invalid) x request kind (plain, websocket upgrade, event stream), served by the real HTTPProxy.ServeHTTP; oracle: status, Location = independent expansion on the escaped path, upstream never contacted; invalid codes never redirect. non-trivial = template with $path or $host")
 	paths := []string{"/", "/a", "/a/b", "/a%2Fb", "/a%20b", "/%C3%A4", "/s", "/s/a", "/s/a%2Fb"}
 	queries := []string{"", "q=1", "q=1&r=%2F"}
 	hosts := []string{"foo.com", "foo.com:8080"}
@@ -112,7 +112,17 @@ func TestVerifC13Inputs(t *testing.T) {
 		var rec *httptest.ResponseRecorder
 		var hits int64
 		msg, stack, pan := ev.Guard(func() {
-			rr, _, h, err := r.do(rawRequest("GET", target, j.host, nil, nil, false), "10.9.8.7:4711", nil)
+			// every third case is sent as a websocket upgrade or an event-stream request:
+			// a redirect route answers those from the request alone as well
+			var hdr [][2]string
+			switch i % 3 {
+			case 1:
+				hdr = [][2]string{{"Upgrade", "websocket"}, {"Connection", "Upgrade"}}
+			case 2:
+				hdr = [][2]string{{"Accept", "text/event-stream"}}
+			}
+			d["request_headers"] = hdr
+			rr, _, h, err := r.do(rawRequest("GET", target, j.host, hdr, nil, false), "10.9.8.7:4711", nil)
 			if err != nil {
 				panic("VERIF-INFRA: " + err.Error())
 			}
